@@ -3,8 +3,8 @@
    every real certificate and compares it field by field with this description, and verifies its
    signature under the published CA material. *)
 From Coq Require Import ZArith.
-From KM Require Import Base.Bytes Model.Auth Model.Certgen Model.CertgenCases Model.CertgenIdent
-                       Proofs.CertgenSpec Proofs.CertgenAuth Proofs.Certgen Proofs.CertgenCert Proofs.CertgenIdent.
+From KM Require Import Base.Bytes Model.Auth Model.Certgen Model.CertgenCases Model.CertgenIdent Model.CertgenEnv
+                       Proofs.CertgenSpec Proofs.CertgenAuth Proofs.Certgen Proofs.CertgenCert Proofs.CertgenIdent Proofs.CertgenEnv.
 From KM Require Model.Seal.
 Open Scope N_scope.
 
@@ -72,6 +72,38 @@ Theorem c02_failed_expansion_refused : forall expand st now lim q u c,
     expand k (s_name st u) <> None /\ expand v (s_name st u) <> None.
 Proof. exact failed_expansion_refused. Qed.
 Print Assumptions c02_failed_expansion_refused.
+
+(* ---- the daemon's process environment is NO input of a certificate.  The expander is split into
+   shell.Expand proper (shexpand mapper template, any function) and the mapper it asks for the value of a
+   variable; the mapper of the code (Model/CertgenEnv.v user_mapper) knows the authenticated user as USERNAME
+   and nothing else.  For EVERY environment env the daemon may have been started in - a USERNAME, HOME, HOSTNAME
+   ... binding of any value - an issued SSH certificate carries exactly the extensions of the specification
+   evaluated with the user alone (expand_user does not mention the environment), every configured template
+   expands for the user alone, and the same request in any other environment env' gets the same certificate *)
+Theorem c02_extensions_env_independent : forall shexpand env st now lim q u c,
+  certgen_env shexpand env st now lim q = Issued u c ->
+  (d_ssh c = true ->
+   (forall k, lookup (d_exts c) k = spec_ext (expand_user shexpand) (s_templates st) (s_name st u) k) /\
+   NoDup (map fst (d_exts c)) /\
+   (forall k v, In (k, v) (s_templates st) ->
+      expand_user shexpand k (s_name st u) <> None /\ expand_user shexpand v (s_name st u) <> None)) /\
+  (forall env', certgen_env shexpand env' st now lim q = Issued u c).
+Proof. exact extensions_env_independent. Qed.
+Print Assumptions c02_extensions_env_independent.
+
+(* NOT the code: a mapper that looks a variable up in the environment before the user (env_mapper: the
+   request's USERNAME first, the daemon's environment after it, the last binding wins).  One template
+   l -> ${USERNAME}, USERNAME=root in the environment: alice's certificate says root - not spec_ext for
+   alice, and not what the same daemon issues without the variable; the code's mapper on the same input
+   does not notice the variable *)
+Theorem c02_env_shadows_user_refuted :
+  exists shexpand env st now lim q u c,
+    certgen_env_shadow shexpand env st now lim q = Issued u c /\ d_ssh c = true /\
+    (exists k, lookup (d_exts c) k <> spec_ext (expand_user shexpand) (s_templates st) (s_name st u) k) /\
+    certgen_env_shadow shexpand [] st now lim q <> certgen_env_shadow shexpand env st now lim q /\
+    certgen_env shexpand env st now lim q = certgen_env shexpand [] st now lim q.
+Proof. exact env_shadows_user_refuted. Qed.
+Print Assumptions c02_env_shadows_user_refuted.
 
 (* no two distinct authenticated users ever receive the same certified name (SSH principals / X.509
    common name), across servers, requests, certificate and key types: the name goes into the
